@@ -14,27 +14,29 @@ def primary_class(tx, ktypes):
 
 
 def run(ctx):
-    # key 1 = P-256, key 2 = another EC key, key 3 = a key with a single encoding (Ethereum-type or Ed25519)
+    if ctx.replay_in:
+        return replay(ctx)
+    # key 1 = P-256, key 2 = another EC key, key 3 = a key with a single encoding (Ethereum-type or Ed25519).
+    # Deviation switches OFF (RawScriptFallback was repaired by 7a71c155): SameSigners itself is the invariant, one
+    # TLC run serves every key-type binding (the rows do not depend on which keys are Ethereum-type any more)
     if ctx.thorough:
-        binds = [("SigTx_C17eth.cfg", ["p256", "k1", "eth"]), ("SigTx_C17ed.cfg", ["p256", "p384", "ed"]),
-                 ("SigTx_C17eth.cfg", ["p256", "sm2", "eth"]), ("SigTx_C17ed.cfg", ["p256", "p521", "ed"]),
-                 ("SigTx_C17eth.cfg", ["p256", "p521", "eth"])]
+        kts = [["p256", "k1", "eth"], ["p256", "p384", "ed"], ["p256", "sm2", "eth"], ["p256", "p521", "ed"], ["p256", "p521", "eth"]]
     else:
-        binds = [("SigTx_C17eth.cfg", ["p256", ["k1", "p384", "sm2"][ctx.seed % 3], "eth"]), ("SigTx_C17ed.cfg", ["p256", "p384", "ed"])]
-    cfgs = sorted({b[0] for b in binds})
+        kts = [["p256", ["k1", "p384", "sm2"][ctx.seed % 3], "eth"], ["p256", "p384", "ed"]]
+    binds = [("SigTx_C17.cfg", kt) for kt in kts]
+    cfgs = ["SigTx_C17.cfg"]
     res = sc.parallel(
-        lambda: sc.run_tlc_plain(ctx, "SigTx_MC", "SigTx_C17d.cfg", "design: SameSigners with parsed-key derivation on both sides"),
         lambda: ctx.go_test_bin("core/validation", harness="b_sig_validation"),
-        *[(lambda c=c: sc.run_tlc_rows(ctx, "SigTx_MC", c)) for c in cfgs])
-    d, binary = res[0], res[1]
-    rows_of = {c: res[2 + i] for i, c in enumerate(cfgs)}
+        lambda: sc.run_tlc_rows(ctx, "SigTx_MC", "SigTx_C17.cfg"))
+    d, binary = res[1][0], res[0]
+    rows_of = {"SigTx_C17.cfg": res[1]}
     nexec = nacc = ndiff = cand = 0
     per = {}
     classes = {}
     if binary and all(rows_of[c][0] for c in cfgs):
         for cfg, kt in binds:
             V, X, M = sc.split_tx_rows(rows_of[cfg][1])
-            if not X or not any(not x["same"] for x in X) or not any(x["same"] for x in X):
+            if not X or not all(x["same"] for x in X) or not any(not x["canon"] for x in X):
                 ctx.infra("vacuous model run %s: %d ExecFresh rows" % (cfg, len(X)))
                 continue
             xmap = {vf_canon(x["tx"]): x for x in X}
@@ -90,7 +92,7 @@ def run(ctx):
         "states": ctx.stats["states"], "transitions": ctx.stats["transitions"],
         "traces_validated_against_impl": nexec, "accepted_by_real_code": nacc, "signer_sets_differ_on_real_code": ndiff,
         "tlc_candidates_against_property": cand, "classes_of_difference": classes, "per_key_types": per,
-        "design_states": d.distinct if d else 0, "exhaustive": True,
+        "exhaustive": True, "deviation_switches": {"MaskByPosition": False, "RawScriptFallback": False},
     }, ["ideal cryptography", "fresh decode = types.TransactionFromRawBytes of the same bytes on a node that did not run VerifyTransaction (block sync path); validator = the object VerifyTransaction was called on",
         "public-key encodings enumerated: canonical, uncompressed, explicitly typed P-256, trailing byte; pushes PUSHBYTESn/PUSHDATA1/2/4; n as opcode or pushed bytes; every key order incl. duplicates"])
 
@@ -98,3 +100,18 @@ def run(ctx):
 def vf_canon(x):
     import vf
     return vf.canon(x)
+
+
+def replay(ctx):
+    import json, sys
+    rec = json.load(open(ctx.replay_in))["replay"]
+    binary = ctx.go_test_bin("core/validation", harness="b_sig_validation")
+    if not binary:
+        sys.exit(2)
+    obs, _ = sc.run_sigtx(ctx, binary, rec["ktypes"], [rec["tx"]], [], "replay")
+    if obs is None:
+        sys.exit(2)
+    o = obs[0]
+    bad = o["acc"] and sorted(set(o["raw"])) != sorted(set(o["signed"]))
+    print("REPLAY property=C17 %s: validated=%s fresh_decode=%s" % ("VIOLATION reproduced" if bad else "not reproduced", o["signed"], o["raw"]))
+    sys.exit(1 if bad else 0)
